@@ -175,7 +175,99 @@ theorem numText_real (F : FloatOps α) (x : α) (h : FloatOK F x) : NumText F (s
   obtain ⟨y, hy, hp⟩ := h.parse c s he tail ht
   exact ⟨.real y, hy, Equiv.real x y hp.symm⟩
 
+/-! ## the domain as an inductive predicate (internal form of `savable` + `FloatsOK`) -/
+
+/-- no NUL byte -/
+def StrOK (s : List Byte) : Prop := ∀ b ∈ s, b ≠ 0
+
+mutual
+inductive Savable (F : FloatOps α) : Value α → Prop
+  | int (n : Int) : -(2 : Int) ^ 63 ≤ n → n < (2 : Int) ^ 63 → Savable F (.int n)
+  | real (x : α) : FloatOK F x → Savable F (.real x)
+  | str (s : List Byte) : StrOK s → Savable F (.str s)
+  | obj : Savable F .obj
+  | arr (xs : Vals α) : SavableVals F xs → xs.length ≤ maxArray → Savable F (.arr xs)
+  | cls (xs : Vals α) : SavableVals F xs → Savable F (.cls xs)
+  | map (ps : Pairs α) : SavablePairs F ps → (∀ k ∈ ps.keys, isReal k = false) →
+      ((ps.keys.filterMap keyTag).Nodup) → Savable F (.map ps)
+inductive SavableVals (F : FloatOps α) : Vals α → Prop
+  | nil : SavableVals F .nil
+  | cons (v : Value α) (r : Vals α) : Savable F v → SavableVals F r → SavableVals F (.cons v r)
+inductive SavablePairs (F : FloatOps α) : Pairs α → Prop
+  | nil : SavablePairs F .nil
+  | cons (k v : Value α) (r : Pairs α) : Savable F k → Savable F v → SavablePairs F r → SavablePairs F (.cons k v r)
+end
+
+theorem strOK_iff (s : List Byte) : strOK s = true ↔ StrOK s := by
+  simp [strOK, StrOK]
+
+mutual
+/-- the decidable domain check plus the float contract give the inductive form -/
+theorem savable_bridge (F : FloatOps α) : (v : Value α) → savable v = true → FloatsOK F v → Savable F v
+  | .int n, h, _ => by
+    simp only [savable, Bool.and_eq_true, decide_eq_true_eq] at h
+    exact Savable.int n h.1 h.2
+  | .real x, _, hf => by
+    rw [FloatsOK] at hf
+    exact Savable.real x hf
+  | .str s, h, _ => by
+    rw [savable] at h
+    exact Savable.str s ((strOK_iff s).1 h)
+  | .obj, _, _ => Savable.obj
+  | .arr xs, h, hf => by
+    simp only [savable, Bool.and_eq_true, decide_eq_true_eq] at h
+    rw [FloatsOK] at hf
+    exact Savable.arr xs (savableVals_bridge F xs h.2 hf) h.1
+  | .cls xs, h, hf => by
+    rw [savable] at h
+    rw [FloatsOK] at hf
+    exact Savable.cls xs (savableVals_bridge F xs h hf)
+  | .map ps, h, hf => by
+    simp only [savable, Bool.and_eq_true, decide_eq_true_eq, List.all_eq_true, Bool.not_eq_true'] at h
+    rw [FloatsOK] at hf
+    exact Savable.map ps (savablePairs_bridge F ps h.1.1 hf) h.1.2 h.2
+theorem savableVals_bridge (F : FloatOps α) : (xs : Vals α) → savableVals xs = true → FloatsOKVals F xs →
+    SavableVals F xs
+  | .nil, _, _ => SavableVals.nil
+  | .cons v r, h, hf => by
+    simp only [savableVals, Bool.and_eq_true] at h
+    rw [FloatsOKVals] at hf
+    exact SavableVals.cons v r (savable_bridge F v h.1 hf.1) (savableVals_bridge F r h.2 hf.2)
+theorem savablePairs_bridge (F : FloatOps α) : (ps : Pairs α) → savablePairs ps = true → FloatsOKPairs F ps →
+    SavablePairs F ps
+  | .nil, _, _ => SavablePairs.nil
+  | .cons k v r, h, hf => by
+    simp only [savablePairs, Bool.and_eq_true] at h
+    rw [FloatsOKPairs] at hf
+    exact SavablePairs.cons k v r (savable_bridge F k h.1.1 hf.1) (savable_bridge F v h.1.2 hf.2.1)
+      (savablePairs_bridge F r h.2 hf.2.2)
+end
+
 /-! ## (C) strings -/
+
+/-! what is used of the regenerated escape sets -/
+
+theorem saveEscaped_34 : saveEscaped.contains 34 = true := by decide
+theorem saveEscaped_92 : saveEscaped.contains 92 = true := by decide
+theorem saveEscaped_13 : saveEscaped.contains 13 = true := by decide
+theorem saveEscaped_only (c : Byte) (h : saveEscaped.contains c = true) : c = 34 ∨ c = 92 ∨ c = 13 := by
+  simp [saveEscaped, NV.Gen.C16.saveEscaped] at h
+  omega
+theorem swap_vals : swapFrom = 10 ∧ swapTo = 13 := ⟨rfl, rfl⟩
+
+/-- `escByte` independent of the concrete lists -/
+theorem escByte_eq (c : Byte) :
+    escByte c = if c = 34 ∨ c = 92 ∨ c = 13 then [92, c] else if c = 10 then [13] else [c] := by
+  unfold escByte
+  by_cases h : c = 34 ∨ c = 92 ∨ c = 13
+  · have : saveEscaped.contains c = true := by
+      rcases h with rfl | rfl | rfl
+      · exact saveEscaped_34
+      · exact saveEscaped_92
+      · exact saveEscaped_13
+    rw [if_pos this, if_pos h]
+  · have : ¬ (saveEscaped.contains c = true) := fun hc => h (saveEscaped_only c hc)
+    rw [if_neg this, if_neg h, swap_vals.1, swap_vals.2]
 
 theorem decodeStr_cons (c : Byte) (r : List Byte) : decodeStr (c :: r) =
     if c = 34 then some ([], r)
@@ -195,88 +287,132 @@ theorem skipStr_cons (c : Byte) (r : List Byte) : skipStr (c :: r) =
     else skipStr r := by
   rw [skipStr.eq_def]; rfl
 
-theorem decodeStr_esc (s rest : List Byte) (hs : StrOK s) :
+theorem decodeStr_esc (s rest : List Byte) :
     decodeStr (escStr s ++ 34 :: rest) = some (s, rest) := by
   induction s with
   | nil => simp [escStr, decodeStr_cons]
   | cons c r ih =>
-    have hc : c ≠ 0 ∧ c ≠ 13 ∧ c < 128 := hs c (by simp)
-    have ih' := ih (fun b hb => hs b (by simp [hb]))
-    simp only [escStr, escByte]
-    by_cases h1 : c = 34 ∨ c = 92
-    · simp [h1, decodeStr_cons, ih']
+    simp only [escStr, escByte_eq]
+    by_cases h1 : c = 34 ∨ c = 92 ∨ c = 13
+    · simp [h1, decodeStr_cons, ih]
     · have h34 : c ≠ 34 := fun h => h1 (Or.inl h)
-      have h92 : c ≠ 92 := fun h => h1 (Or.inr h)
+      have h92 : c ≠ 92 := fun h => h1 (Or.inr (Or.inl h))
+      have h13 : c ≠ 13 := fun h => h1 (Or.inr (Or.inr h))
       by_cases h10 : c = 10
-      · subst h10; simp [decodeStr_cons, ih']
-      · simp [h10, decodeStr_cons, ih', h34, h92, hc.2.1]
+      · subst h10; simp [decodeStr_cons, ih]
+      · simp [h10, decodeStr_cons, ih, h34, h92, h13]
 
 theorem skipStr_esc (s rest : List Byte) : skipStr (escStr s ++ 34 :: rest) = some rest := by
   induction s with
   | nil => simp [escStr, skipStr_cons]
   | cons c r ih =>
-    simp only [escStr, escByte]
-    by_cases h1 : c = 34 ∨ c = 92
+    simp only [escStr, escByte_eq]
+    by_cases h1 : c = 34 ∨ c = 92 ∨ c = 13
     · simp [h1, skipStr_cons, ih]
     · have h34 : c ≠ 34 := fun h => h1 (Or.inl h)
-      have h92 : c ≠ 92 := fun h => h1 (Or.inr h)
+      have h92 : c ≠ 92 := fun h => h1 (Or.inr (Or.inl h))
+      have h13 : c ≠ 13 := fun h => h1 (Or.inr (Or.inr h))
       by_cases h10 : c = 10
       · subst h10; simp [skipStr_cons, ih]
-      · simp [h10, skipStr_cons, ih, h34, h92]
+      · simp [h10, skipStr_cons, ih, h34, h92, h13]
 
-theorem skipStrMb_esc (mb : MbLen) (s rest : List Byte) (hs : StrOK s) :
-    ∀ fuel, (escStr s).length < fuel → skipStrMb mb fuel (escStr s ++ 34 :: rest) = MbScan.closed rest := by
-  induction s with
-  | nil =>
-    intro fuel hf
-    cases fuel with
-    | zero => simp at hf
-    | succ f => simp [escStr, skipStrMb]
-  | cons c r ih =>
-    have hc : c ≠ 0 ∧ c ≠ 13 ∧ c < 128 := hs c (by simp)
-    have ih' := ih (fun b hb => hs b (by simp [hb]))
-    intro fuel hf
-    simp only [escStr, escByte] at hf ⊢
-    by_cases h1 : c = 34 ∨ c = 92
-    · simp only [h1, ↓reduceIte, List.cons_append, List.nil_append, List.length_cons] at hf ⊢
+/-- bytes that are not ASCII are neither quote nor backslash: the plain scan passes them one by one -/
+theorem skipStr_drop_high : ∀ (m : Nat) (l : List Byte), (∀ b ∈ l.take m, 128 ≤ b) →
+    skipStr (l.drop m) = skipStr l
+  | 0, _, _ => by simp
+  | m + 1, [], _ => by simp
+  | m + 1, x :: r, h => by
+    have hx : 128 ≤ x := h x (by simp)
+    have ih := skipStr_drop_high m r (fun b hb => h b (by simp [hb]))
+    have h34 : x ≠ 34 := by omega
+    have h92 : x ≠ 92 := by omega
+    rw [List.drop_succ_cons, ih, skipStr_cons]
+    simp [h34, h92]
+
+/-- the step of `restore_size` over one character -/
+theorem mbStep_spec (mb : MbLen) (c : Byte) (r : List Byte) :
+    ∃ m, mbStep mb (c :: r) = m + 1 ∧ m ≤ r.length ∧ ∀ b ∈ r.take m, 128 ≤ b := by
+  unfold mbStep
+  cases h : mb.len (c :: r) with
+  | none => exact ⟨0, rfl, by omega, by simp⟩
+  | some n =>
+    have h1 := mb.pos _ _ h (by simp)
+    have h2 := mb.le_length _ _ h
+    have h3 := mb.cont _ _ h
+    match n, h1, h2, h3 with
+    | m + 1, _, h2, h3 =>
+      refine ⟨m, rfl, by simpa using h2, ?_⟩
+      simpa using h3
+
+theorem mbStep_ascii (mb : MbLen) (c : Byte) (r : List Byte) (hc : c < 128) : mbStep mb (c :: r) = 1 := by
+  unfold mbStep; rw [mb.ascii c r hc]; rfl
+
+theorem skipStrMb_cons (mb : MbLen) (fuel : Nat) (c : Byte) (r : List Byte) :
+    skipStrMb mb (fuel + 1) (c :: r) =
+      if c = 34 then .closed r
+      else if c = 92 then
+        match (c :: r).drop (mbStep mb (c :: r)) with
+        | [] => .open_
+        | _ :: r'' => skipStrMb mb fuel r''
+      else skipStrMb mb fuel ((c :: r).drop (mbStep mb (c :: r))) := by
+  rw [skipStrMb.eq_def]; rfl
+
+/-- the multibyte-aware scan of `restore_size` agrees with the plain scan, for every byte sequence -/
+theorem skipStrMb_of_skipStr (mb : MbLen) : ∀ (n : Nat) (t : List Byte), t.length ≤ n → ∀ res,
+    skipStr t = some res → ∀ fuel, t.length < fuel → skipStrMb mb fuel t = MbScan.closed res := by
+  intro n
+  induction n with
+  | zero =>
+    intro t ht res hs
+    cases t with
+    | nil => simp [skipStr] at hs
+    | cons c r => simp at ht
+  | succ n ih =>
+    intro t ht res hs fuel hf
+    cases t with
+    | nil => simp [skipStr] at hs
+    | cons c r =>
       cases fuel with
       | zero => omega
       | succ f =>
-        have h := mb.ascii 92 (c :: (escStr r ++ 34 :: rest)) (by omega)
-        simp only [skipStrMb, h]
-        simp
-        exact ih' f (by simp at hf; omega)
-    · have h34 : c ≠ 34 := fun h => h1 (Or.inl h)
-      have h92 : c ≠ 92 := fun h => h1 (Or.inr h)
-      by_cases h10 : c = 10
-      · subst h10
-        simp only [h1, ↓reduceIte, List.cons_append, List.nil_append, List.length_cons] at hf ⊢
-        cases fuel with
-        | zero => omega
-        | succ f =>
-          have h := mb.ascii 13 (escStr r ++ 34 :: rest) (by omega)
-          simp only [skipStrMb, h]
-          simp
-          exact ih' f (by simp at hf; omega)
-      · simp only [h1, h10, ↓reduceIte, List.cons_append, List.nil_append, List.length_cons] at hf ⊢
-        cases fuel with
-        | zero => omega
-        | succ f =>
-          have h := mb.ascii c (escStr r ++ 34 :: rest) hc.2.2
-          simp only [skipStrMb, h]
-          simp [h34, h92]
-          exact ih' f (by simp at hf; omega)
+        simp only [List.length_cons] at ht hf
+        rw [skipStr_cons] at hs
+        rw [skipStrMb_cons]
+        by_cases h34 : c = 34
+        · simp only [h34, if_true] at hs ⊢
+          cases hs; rfl
+        · by_cases h92 : c = 92
+          · subst h92
+            rw [mbStep_ascii mb 92 r (by omega)]
+            simp only [h34, if_false, if_true] at hs ⊢
+            cases r with
+            | nil => simp at hs
+            | cons x r'' =>
+              simp only [List.drop_succ_cons, List.drop_zero] at hs ⊢
+              simp only [List.length_cons] at ht hf
+              exact ih r'' (by omega) res hs f (by omega)
+          · simp only [h34, h92, if_false] at hs ⊢
+            obtain ⟨m, hm, hle, hhigh⟩ := mbStep_spec mb c r
+            rw [hm, List.drop_succ_cons]
+            have hd : skipStr (r.drop m) = some res := by rw [skipStr_drop_high m r hhigh]; exact hs
+            have hl : (r.drop m).length ≤ r.length := by simp
+            exact ih (r.drop m) (by omega) res hd f (by omega)
 
-theorem escStr_bytes (s : List Byte) (hs : StrOK s) : ∀ b ∈ escStr s, b ≠ 0 ∧ b < 128 := by
+theorem skipStrMb_esc (mb : MbLen) (s rest : List Byte) (fuel : Nat)
+    (hf : (escStr s ++ 34 :: rest).length < fuel) :
+    skipStrMb mb fuel (escStr s ++ 34 :: rest) = MbScan.closed rest :=
+  skipStrMb_of_skipStr mb _ _ (Nat.le_refl _) rest (skipStr_esc s rest) fuel hf
+
+theorem escStr_bytes (s : List Byte) (hs : StrOK s) : ∀ b ∈ escStr s, b ≠ 0 := by
   induction s with
   | nil => simp [escStr]
   | cons c r ih =>
-    have hc : c ≠ 0 ∧ c ≠ 13 ∧ c < 128 := hs c (by simp)
+    have hc : c ≠ 0 := hs c (by simp)
     have ih' := ih (fun b hb => hs b (by simp [hb]))
     intro b hb
     simp only [escStr, List.mem_append] at hb
     rcases hb with hb | hb
-    · unfold escByte at hb
+    · rw [escByte_eq] at hb
       split at hb
       · simp at hb; rcases hb with rfl | rfl <;> omega
       · split at hb
@@ -326,7 +462,7 @@ theorem save_nz (F : FloatOps α) : (v : Value α) → Savable F v → ∀ b ∈
     simp only [save, List.mem_cons, List.mem_append, List.not_mem_nil, or_false] at hb
     rcases hb with rfl | hb | rfl
     · omega
-    · exact (escStr_bytes s hs.str_inv b hb).1
+    · exact escStr_bytes s hs.str_inv b hb
     · omega
   | .arr xs, hs => by
     intro b hb
@@ -404,7 +540,6 @@ theorem pre_cons (mb : MbLen) (fuel : Nat) (top isMap idx : Bool) (c : Byte) (r 
       if c = 34 then
         if top then
           match skipStrMb mb (r.length + 1) r with
-          | .bad => none
           | .open_ => some ([], 0, [])
           | .closed (d :: r') =>
             if d = delimOf isMap idx then pre mb fuel top isMap (idxNext isMap idx) r' (size + 1) zs else none
@@ -440,8 +575,8 @@ theorem pre_cons (mb : MbLen) (fuel : Nat) (top isMap idx : Bool) (c : Byte) (r 
         | some r' => pre mb fuel top isMap (idxNext isMap idx) r' (size + 1) zs
         | none => none := by
   rw [pre.eq_def]
-  have hl : (if top = true then (mb.len (c :: r)).map (fun n => (c :: r).drop n) else some r) = some r := by
-    cases top <;> simp [mb.ascii c r hc]
+  have hl : (if top = true then (c :: r).drop (mbStep mb (c :: r)) else r) = r := by
+    cases top <;> simp [mbStep_ascii mb c r hc]
   simp only [hl, delimOf, idxNext]
   rfl
 
@@ -481,13 +616,13 @@ theorem pre_num (d : Byte) (hd : delimOf isMap idx = d) (c : Byte) (s rest : Lis
   simp only [h1, h2, h3, h4, h5, ↓reduceIte]
 
 /-- a string -/
-theorem pre_str (d : Byte) (hd : delimOf isMap idx = d) (s rest : List Byte) (hs : StrOK s) :
+theorem pre_str (d : Byte) (hd : delimOf isMap idx = d) (s rest : List Byte) :
     pre mb (fuel + 1) top isMap idx (34 :: (escStr s ++ 34 :: d :: rest)) size zs =
       pre mb fuel top isMap (idxNext isMap idx) rest (size + 1) zs := by
   rw [pre_cons _ _ _ _ _ _ _ _ _ (by omega), hd]
   cases top with
   | true =>
-    rw [skipStrMb_esc mb s (d :: rest) hs _ (by simp; omega)]
+    rw [skipStrMb_esc mb s (d :: rest) _ (by omega)]
     simp
   | false =>
     rw [skipStr_esc]
